@@ -75,6 +75,15 @@ def mapHas {κ ν : Type} [BEq κ] (m : List (κ × ν)) (k : κ) : Bool :=
 /-- `make([]T, 0, c)`: panics when the capacity is negative; the capacity itself is not modelled. -/
 def makeCap {α : Type} (c : Int) : Option (List α) := if c < 0 then none else some []
 
+/-- `fmt.Sprintf(format, x)` for a `format` computed at run time that consists of literal text and exactly one
+verb, `%v`: the format with the verb replaced by `arg` (the `%v` text of `x`).  Any other format (`%%`, other
+verbs, no verb, a second `%`) is outside the translated fragment: `none`, no claim. -/
+def sprintf1 (format arg : Bytes) : Option Bytes :=
+  let pre := format.takeWhile (· != 37)
+  match format.drop pre.length with
+  | 37 :: 118 :: rest => if rest.contains 37 then none else some (pre ++ arg ++ rest)
+  | _ => none
+
 /-- `copy(dst, src)`: overwrite the first `min` elements. -/
 def copyInto {α : Type} (dst src : List α) : List α :=
   src.take dst.length ++ dst.drop (min dst.length src.length)
